@@ -69,6 +69,9 @@ RangeEquiv == \A a, b \in Levels, s \in Srcs : CtlOut(dec[a][s]) = CtlOut(dec[b]
 \* every kernel of the tables is one the property classifies
 TablesKnown == \A i \in 1..Len(Rows) : Rows[i].kern \in KnownKernels /\ Len(Rows[i].impl) = 5
 
+\* every entry selects an implementation of its own row's kernel
+TablesWellTyped == WellTyped(Rows)
+
 \* ---- behaviour generation --------------------------------------------------------------------------
 Emit == (Len(toks) = Depth) => PrintT(<<"HIST", ToString(set), ToString(toks)>>)
 =============================================================================
